@@ -36,13 +36,14 @@ type RDoc struct {
 	MinOK  bool   `json:"minok"`  // has >= 1 secret and >= 1 user
 }
 type RHist struct {
-	Burst  bool     `json:"burst,omitempty"` // feed the documents back to back while the update loop is held inside its first build
-	ID     string   `json:"id"`
-	Fmt    string   `json:"fmt"` // yaml | json
-	Via    string   `json:"via"` // unmarshal | load
-	Docs   []RDoc   `json:"docs"`
-	Probes []string `json:"probes"` // addresses to look up after every good load
-	Users  []string `json:"users"`  // user names to look for in the bound scope
+	Secrets []string `json:"secrets,omitempty"` // shared secrets occurring in the documents (tokens looked for in logger calls)
+	Burst   bool     `json:"burst,omitempty"`   // feed the documents back to back while the update loop is held inside its first build
+	ID      string   `json:"id"`
+	Fmt     string   `json:"fmt"` // yaml | json
+	Via     string   `json:"via"` // unmarshal | load
+	Docs    []RDoc   `json:"docs"`
+	Probes  []string `json:"probes"` // addresses to look up after every good load
+	Users   []string `json:"users"`  // user names to look for in the bound scope
 }
 
 type fileLoader interface {
@@ -360,6 +361,16 @@ func (r *refRun) watchOne(h *RHist, dir string) []E {
 	ctx, cancel := context.WithCancel(context.Background())
 	defer cancel()
 	lg := NewCapLog(nil, false)
+	// what the watcher and the loader ask their logger to emit is searched for the shared secrets of the documents (C18)
+	var omu sync.Mutex
+	lg.Tokens = h.Secrets
+	lg.Gate = func(kind, msg string) {
+		if hs := lg.hits(msg); len(hs) > 0 {
+			omu.Lock()
+			out = append(out, E{"e": "wlog", "k": kind, "hits": hb(hs), "msg": msg})
+			omu.Unlock()
+		}
+	}
 	acc, _ := local.New(lg, local.SetLogSink(r.sink))
 	w := fsnotify.New(ctx, yaml.New(), lg)
 	long, err := loader.NewLocalConfig(ctx, path, w,
@@ -368,7 +379,9 @@ func (r *refRun) watchOne(h *RHist, dir string) []E {
 		loader.RegisterHandlerType(config.START, handlers.NewStart(lg)), loader.RegisterAuthenticator(config.BCRYPT, bcrypt.New(lg, okSecret{})),
 		loader.RegisterAccounter(config.FILE, acc))
 	good0 := h.Docs[0].Parses && h.Docs[0].MinOK
+	omu.Lock()
 	out = append(out, E{"e": "wstart", "ok": err == nil, "good": good0})
+	omu.Unlock()
 	if err != nil {
 		return out
 	}
@@ -419,7 +432,9 @@ func (r *refRun) watchOne(h *RHist, dir string) []E {
 		for _, a := range h.Probes {
 			ok1, k1, u1 := probeLoader(long, a, h.Users)
 			ok2, k2, u2 := probeLoader(fl, a, h.Users)
+			omu.Lock()
 			out = append(out, E{"e": "probe", "i": i + 2, "addr": a, "ok": ok1, "key": string(k1), "users": u1, "fok": ok2, "fkey": string(k2), "fusers": u2, "watch": true})
+			omu.Unlock()
 		}
 	}
 	return out
